@@ -19,6 +19,10 @@ pub struct Case {
     /// reset / set_chunk_size are not part of that trait and are left out of such a history
     #[serde(default)]
     pub via_vec: bool,
+    /// the mask is held over the first stream only: from the first reset() on the masked instance is called
+    /// without a mask, like the unmasked one, and must behave like it on every channel
+    #[serde(default)]
+    pub unmask_after_reset: bool,
 }
 
 pub struct C11;
@@ -83,13 +87,19 @@ fn run_t<T: SampleX>(c0: &Case) -> Outcome {
     let (mut tu, mut ta) = (new_trace::<T>(), new_trace::<T>());
     let mut ts: Vec<_> = (0..n).map(|_| new_trace::<T>()).collect();
     let mut compared = 0u64;
+    let mut unmasked = false;
     for (i, op0) in c0.ops.iter().enumerate() {
         if c0.via_vec && matches!(op0, Op::Reset | Op::SetChunk { .. } | Op::SetChunkRaw { .. }) {
             continue;
         }
         let (nu, na) = (tu.steps.len(), ta.steps.len());
         u.step(i, &with_mask(op0, None), &sig, &mut tu);
-        a.step(i, &with_mask(op0, c0.mask), &sig, &mut ta);
+        a.step(i, &with_mask(op0, if unmasked { None } else { c0.mask }), &sig, &mut ta);
+        if c0.unmask_after_reset && c0.mask.is_some() && matches!(op0, Op::Reset) && !unmasked {
+            unmasked = true;
+            o.class("mask dropped after reset");
+        }
+        let active = |c: usize| unmasked || active(c);
         let mut single_new = vec![];
         for c in 0..n {
             let n0 = ts[c].steps.len();
@@ -186,8 +196,8 @@ impl Property for C11 {
         let mut sp = CfgSpace::histories(tier.thorough());
         sp.max_channels = 8;
         let mask = prop_oneof![2 => Just(None), 4 => any::<u8>().prop_map(Some), 1 => Just(Some(0u8)), 1 => Just(Some(255u8))];
-        (config_strategy(sp), 1usize..=8, any::<u64>(), mask, ops_strategy(OpSpace::all(), 14), prop_oneof![3 => Just(false), 1 => Just(true)])
-            .prop_map(|(mut cfg, ch, seed, mask, ops, via_vec)| {
+        (config_strategy(sp), 1usize..=8, any::<u64>(), mask, ops_strategy(OpSpace::all(), 14), prop_oneof![3 => Just(false), 1 => Just(true)], any::<bool>())
+            .prop_map(|(mut cfg, ch, seed, mask, ops, via_vec, unmask_after_reset)| {
                 if cfg.channels == 1 {
                     cfg.channels = ch;
                 }
@@ -195,7 +205,7 @@ impl Property for C11 {
                 while call_cost(&cfg) * calls * 3.0 > 8e6 && cfg.chunk > 1 {
                     cfg.chunk = (cfg.chunk / 2).max(1);
                 }
-                Case { cfg, seed, mask, ops, via_vec }
+                Case { cfg, seed, mask, ops, via_vec, unmask_after_reset }
             })
             .boxed()
     }
